@@ -34,6 +34,7 @@ pub struct Menu {
     pub dts: Vec<u64>,
     pub slash_div: Vec<u64>,
     pub probes: Vec<String>,
+    pub prices: Vec<[u64; 3]>,
 }
 impl Menu {
     pub fn from_json(v: &Value) -> Menu {
@@ -43,6 +44,8 @@ impl Menu {
             dts: v["dts"].as_array().map(|a| a.iter().map(|x| x.as_u64().unwrap()).collect()).unwrap_or(vec![1, 2, 3, 5, 6]),
             slash_div: v["slash_div"].as_array().map(|a| a.iter().map(|x| x.as_u64().unwrap()).collect()).unwrap_or(vec![2, 3, 10]),
             probes: v["probes"].as_array().map(|a| a.iter().map(|x| x.as_str().unwrap().to_string()).collect()).unwrap_or_default(),
+            prices: v["prices"].as_array().map(|a| a.iter().map(|p| [p[0].as_u64().unwrap(), p[1].as_u64().unwrap(), p[2].as_u64().unwrap()]).collect())
+                .unwrap_or(vec![[1, 0, 0], [0, 750000000, 0], [1, 500000000, 0], [0, 333333333, 333333333], [1000, 0, 0], [0, 1000000, 0]]),
         }
     }
     pub fn pick(&self, rng: &mut Rng) -> String {
@@ -149,11 +152,11 @@ pub fn gen(c: &Chain, cfg: &Cfg, m: &Menu, rng: &mut Rng, kind: &str) -> Option<
         }
         "donate" => json!({"k": "donate", "u": u, "a": 1 + rng.below(5)}),
         "set_ext" => {
-            let price = *rng.pick(&[[1u64, 0, 0], [0, 750000000, 0], [1, 500000000, 0], [0, 333333333, 333333333], [1000, 0, 0], [0, 1000000, 0]]);
+            let price = *rng.pick(&m.prices);
             json!({"k": "set_ext", "swap": *rng.pick(&["ok", "ok", "fail"]), "oracle": *rng.pick(&["ok", "ok", "fail", "zero"]), "price": price})
         }
         "set_price" => {
-            let price = *rng.pick(&[[1u64, 0, 0], [0, 750000000, 0], [1, 500000000, 0], [0, 333333333, 333333333], [1000, 0, 0], [0, 1000000, 0]]);
+            let price = *rng.pick(&m.prices);
             json!({"k": "set_ext", "swap": "ok", "oracle": "ok", "price": price})
         }
         "pause" => {
